@@ -510,23 +510,41 @@ impl Workload for DamageWorkload {
                         viol = Some((format!("crash:{op}-leftover-not-a-prefix"), format!("crash_at_byte({n}): {} bytes left which are not a prefix of the {} bytes the uncrashed process writes", left.len(), full.len())));
                         break;
                     }
-                    // the two loaders must reject what is left (it is a proper prefix)
-                    std::fs::write(&img, &left).expect("write image");
-                    let l64 = load_as::<u64>(&imgp);
-                    let l128 = load_as::<u128>(&imgp);
+                    // The leftover is judged WHERE IT LIES, with everything else the interrupted writer
+                    // left in the directory (temporary or backup files included): that is what the next
+                    // command of a user meets. The directory state right after the crash is restored
+                    // before every reader.
+                    let post: BTreeMap<String, Vec<u8>> = dir.listing().into_iter().filter_map(|n| dir.read(&n).map(|d| (n, d))).collect();
+                    let restore = |dir: &RunDir| {
+                        for n in dir.listing() {
+                            if !post.contains_key(&n) {
+                                dir.remove(&n);
+                            }
+                        }
+                        for (n, d) in &post {
+                            if dir.read(n).as_deref() != Some(d.as_slice()) {
+                                dir.write(n, d);
+                            }
+                        }
+                    };
+                    let tpath = dir.p(target);
+                    let tp = tpath.to_str().unwrap();
+                    let l64 = load_as::<u64>(tp);
+                    let l128 = load_as::<u128>(tp);
                     if l64.is_ok() || l128.is_ok() {
-                        viol = Some((format!("crash:{op}-leftover-accepted"), format!("crash_at_byte({n}) of {}: the {} bytes left behind are accepted by a loader", full.len(), left.len())));
+                        viol = Some((format!("crash:{op}-leftover-accepted"), format!("crash_at_byte({n}) of {}: the {} bytes left behind as {target} are accepted by a loader (directory after the crash: {:?})", full.len(), left.len(), post.keys().collect::<Vec<_>>())));
                         break;
                     }
                     for sc in SUBCOMMANDS {
-                        dir.write("victim.skf", &left);
-                        let r = ex.run(subcommand_argv(sc, "victim.skf", &first_name))?;
+                        restore(dir);
+                        let r = ex.run(subcommand_argv(sc, target, &first_name))?;
                         out.evals += 1;
                         if r.ok() {
-                            viol = Some((format!("crash:{sc}-accepts-leftover-of-{op}"), format!("after crash_at_byte({n}) in ska {op}, ska {sc} exits 0 on the {} bytes left behind", left.len())));
+                            viol = Some((format!("crash:{sc}-accepts-leftover-of-{op}"), format!("after crash_at_byte({n}) in ska {op}, ska {sc} exits 0 on the {} bytes left behind as {target} (directory after the crash: {:?})", left.len(), post.keys().collect::<Vec<_>>())));
                             break;
                         }
                     }
+                    restore(dir);
                     if viol.is_some() {
                         break;
                     }
